@@ -126,6 +126,39 @@ def run(ctx):
         for nm, R, exp in res:
             ctx.case("singleton-law-history", (tuple(vs), nm))
             ctx.check(R is exp, "singleton law does not give the singleton (objects with a history)", {"vertices": vs, "law": nm}, type(exp).__name__, impl.kind(R))
+    # singleton laws on COMPOSITE objects with a history: used (operators, containment, boxes of the shape and of its sub-shapes) at one place, then moved /
+    # scaled in place by more than their size, then combined with their own complement
+    comp_kinds = [k for k in shapes.DEFINED if not k.startswith("simple")]
+    for ci, kname in enumerate(comp_kinds if not ctx.quick else rng.sample(comp_kinds, min(3, len(comp_kinds)))):
+        S, d = shapes.make(rng, kname, rng.randint(-2, 2), rng.randint(-2, 2), drv)
+        far = Primitive.square(side=2, center=(200, 200))
+        try:
+            with impl.time_limit(240):
+                (S | far, S & far, far in S, S in far, float(S), S.box())
+                for sub in getattr(S, "subshapes", ()):
+                    sub.box(); float(sub)
+                S.move(61, -37)
+                if ci % 2 == 0:
+                    S.scale(3, 3)
+                res = [("S|~S", S | ~S, W), ("S&~S", S & ~S, E), ("S-S", S - S, E), ("S^S", S ^ S, E), ("S^~S", S ^ ~S, W)]
+        except impl.Timeout:
+            ctx.fail("singleton law did not return (composite with a history)", {"kind": kname, "shape": core.jsonable(d)}); continue
+        except Exception as ex:
+            ctx.fail("singleton law raised (composite with a history)", {"kind": kname, "shape": core.jsonable(d)}, got=repr(ex)); continue
+        for nm, R, exp in res:
+            ctx.case("singleton-law-composite-history", (kname, repr(d), nm))
+            ctx.check(R is exp, "singleton law does not give the singleton (composite used, then moved in place)", {"kind": kname, "shape": core.jsonable(d), "law": nm}, type(exp).__name__, impl.kind(R))
+    # a ring used at one place, moved in place, then cut with a square that sits in its (new) hole: Empty, and the union has two components
+    for it in range(2 if ctx.quick else 20):
+        ring = Primitive.square(side=8) - Primitive.square(side=4)
+        (ring | Primitive.square(side=1, center=(20, 0)), Primitive.square(side=1) in ring, ring.box(), [sub.box() for sub in ring.subshapes])
+        dx, dy = rng.randint(30, 60), rng.randint(-60, -30)
+        ring.move(dx, dy)
+        inner = Primitive.square(side=2, center=(dx, dy))
+        ctx.case("moved-ring", (dx, dy))
+        I, U = ring & inner, ring | inner
+        ctx.check(I is E, "a ring moved in place and a square inside its hole: the intersection is not the Empty singleton", {"move": (dx, dy)}, "Empty", impl.kind(I))
+        ctx.check(impl.kind(U) == "Disjoint", "a ring moved in place and a square inside its hole: the union is not a two-component shape", {"move": (dx, dy)}, "Disjoint", impl.kind(U))
     # nesting four levels deep (a ring inside the hole of a ring inside the hole of …): results must be well formed
     def sq(h):
         return [(-h, -h), (h, -h), (h, h), (-h, h)]
